@@ -35,9 +35,13 @@ def make_cfg(row, rng):
     masses[2] = 60.0  # keep the top wall reachable cheaply
     # L != 0: a vanishing logarithm must not look like a missing order
     ratios = [float(rng.choice([1.3, 1.6])), float(rng.choice([0.8, 1.3, 1.6])), float(rng.choice([0.8, 1.3, 1.6]))]
+    if row["nf"] <= 5 and not (row["nf"] == 5 and row["path"] == "up") and (row.get("_force_inf") or rng.random() < 0.35):
+        # the top quark switched off by an infinite matching ratio (the idiom of the repository's own
+        # fixtures): a wrong index into the ratio list then turns ln(k) into +-inf
+        ratios[2] = float("inf")
     walls = [m * r for m, r in zip(masses, ratios)]
     lo = [1.3, walls[0], walls[1], walls[2]]
-    hi = [walls[0], walls[1], walls[2], 300.0]
+    hi = [walls[0], walls[1], min(walls[2], 250.0), 300.0]
 
     def inpatch(nf, f):
         a, b = lo[nf - 3], hi[nf - 3]
@@ -189,6 +193,12 @@ def rows(ck):
             r["method"] = "iterate-exact"
             r["pt"] = "unpol"
             r["qcd"] = int(rng.integers(1, 4))
+        kept.append(r)
+    # downward crossings at NLO+ with unequal matching ratios (incl. a switched-off top): a wrong ratio/index
+    # in the inverse matching shows up as a non-finite logarithm
+    for _ in range(ck.n(8, 60)):
+        r = {n: FACTORS[n][int(rng.integers(len(FACTORS[n])))] for n in FACTORS}
+        r.update(qed=0, pt=["unpol", "unpol", "pol"][int(rng.integers(3))], qcd=int(rng.integers(2, 4)), path="down", nf=int(rng.integers(4, 6)), _force_inf=True)
         kept.append(r)
     tag = ["cover"] * len(kept)
     if not ck.quick:
